@@ -15,14 +15,16 @@
     (f) [C13_failed_transfer_raises]; (c) [C13_under_limit_never_refused]
     under the hypothesis that the tracked rate is not already above max;
     (a) for grants decided by the rate test [C13_immediate_grant_bound],
-    [C13_immediate_window]; (b) [C13_scheduled_window].
+    [C13_immediate_window], [C13_immediate_bytes_mixed]; (b) [C13_scheduled_window],
+    [C13_scheduled_window_streams] (which with the previous gives 2.25 max T +
+    burst for mixed windows).
     Refuted with explicit witnesses: (a) in its stated form for mixed windows
     [C13_rate_125_refuted] (F10), (c) without the side condition
     [C13_inf_poisoning_refuted] (F11); and (e) for the loop as it was before
     the repair of F9 [C13_leak_unrepaired_refuted].
 
     Only statements; proofs are in proofs/BandwidthProofs.v. *)
-From Coq Require Import ZArith QArith List Bool.
+From Coq Require Import ZArith QArith List Bool Lia.
 From S3V Require Import gen.Tables model.Bandwidth proofs.BandwidthProofs.
 Import ListNotations.
 Open Scope Q_scope.
@@ -92,6 +94,23 @@ Proof.
 Qed.
 Print Assumptions C13_immediate_window.
 
+(** (a), mixed windows, the part decided by the rate test.  Also when
+    scheduled releases are interleaved, the grants decided by the rate test
+    in a stretch of history with non-decreasing clock readings carry at most
+    1.25 max (t1 - t0) bytes.  Together with [C13_scheduled_window] this bounds
+    ALL bytes of a window by 2.25 max T + burst + one request; the stated
+    1.25 max T + burst is false ([C13_rate_125_refuted]). *)
+Theorem C13_immediate_bytes_mixed : forall mx b seg t0 t,
+  0 < mx -> reachable mx b -> Forall op_ok seg -> last_time (trk b) = Some t0 -> t0 <= t ->
+  clocks_from t seg ->
+  exists t1, last_time (trk (run_state BW_ALPHA mx b seg)) = Some t1 /\ t0 <= t1 /\
+    inject_Z (immediate_bytes BW_ALPHA mx b seg) <= (5 # 4) * mx * (t1 - t0).
+Proof.
+  intros mx b seg t0 t Hm Hr. apply immediate_bytes_mixed_src; [exact Hm|].
+  now apply reachable_inv.
+Qed.
+Print Assumptions C13_immediate_bytes_mixed.
+
 (** (c).  From the initial state -- or from any state whose tracked rate is
     at most max -- requests that each ask for no more than the limit allows
     since the previous grant, strictly after it, are never refused. *)
@@ -129,6 +148,24 @@ Proof.
 Qed.
 Print Assumptions C13_abandoned_token_removed.
 
+(** (e), several streams on one bucket (every event of every stream, any
+    interleaving, transfers failing at any point): the tokens scheduled in the
+    bucket are exactly the streams currently asleep in their loop -- no token
+    of a stream that has returned or raised stays behind -- and the
+    accumulated wait is the time for exactly those streams' pending bytes. *)
+Theorem C13_live_waiters : forall mx thr evs, 0 < mx -> Forall ev_ok evs ->
+  let y := sys_state thr BW_ALPHA mx sys0 evs in
+  (forall sid, is_scheduled sid (sch (y_bucket y)) = true <->
+               ss_pending (get_stream sid (y_streams y)) <> PNone) /\
+  total_wait (sch (y_bucket y)) == inject_Z (sum_amt (tokens (sch (y_bucket y)))) / mx.
+Proof.
+  intros mx thr evs Hm Hok y. destruct alpha_range as [A0 A1].
+  destruct (sys_state_inv thr BW_ALPHA mx (Qlt_le_weak _ _ A0) (Qlt_le_weak _ _ A1) Hm evs sys0 Hok
+              (sys0_inv mx)) as [Hi _ _ Hl].
+  split; [exact Hl|now apply wait_formula_state].
+Qed.
+Print Assumptions C13_live_waiters.
+
 (** (f).  Once the transfer's exception is set, a pass through the stream's
     loop raises without consuming: the tracker is untouched, and the stream's
     token is no longer scheduled. *)
@@ -150,6 +187,36 @@ Theorem C13_stream_loop_one_sleep : forall mx exc_at wake now st b, 0 < mx ->
 Proof. intros. now apply stream_loop_two. Qed.
 Print Assumptions C13_stream_loop_one_sleep.
 
+(** (b).  Scheduled releases -- under saturation every grant but the first is
+    one -- in ANY window [u, v] of a disciplined history (clock readings do
+    not decrease; a refused token comes back with the same amount, not before
+    its wait is over: "sleeps are not shorter than requested") move at most
+    max (v - u) bytes plus the bytes scheduled at any one time ([B]). *)
+Theorem C13_scheduled_window : forall mx B ops u v t0,
+  0 < mx -> u <= v ->
+  disciplined BW_ALPHA mx bucket0 [] t0 ops = true ->
+  outstanding_le BW_ALPHA mx B bucket0 ops ->
+  inject_Z (released_bytes BW_ALPHA mx u v bucket0 ops) <= mx * (v - u) + inject_Z B.
+Proof.
+  intros mx B ops u v t0 Hm Huv. destruct alpha_range as [A0 A1].
+  apply scheduled_window_gen; try assumption; now apply Qlt_le_weak.
+Qed.
+Print Assumptions C13_scheduled_window.
+
+(** the same with the burst in terms of streams: N tokens, requests of at
+    most [amax] bytes: max (v - u) + N * amax *)
+Theorem C13_scheduled_window_streams : forall mx toks amax ops u v t0,
+  0 < mx -> u <= v -> (0 <= amax)%Z ->
+  disciplined BW_ALPHA mx bucket0 [] t0 ops = true ->
+  Forall (op_within toks amax) ops ->
+  inject_Z (released_bytes BW_ALPHA mx u v bucket0 ops) <=
+  mx * (v - u) + inject_Z (Z.of_nat (length toks) * amax).
+Proof.
+  intros mx toks amax ops u v t0 Hm Huv Ha. destruct alpha_range as [A0 A1].
+  apply scheduled_window_streams; try assumption; now apply Qlt_le_weak.
+Qed.
+Print Assumptions C13_scheduled_window_streams.
+
 (** (a) REFUTED as stated (finding F10).  max = 1000; stream S (token 1)
     re-requests 1000 bytes the moment it is granted, stream I (token 2)
     requests 390 bytes in the middle of each of S's waits; the history is
@@ -162,11 +229,7 @@ Theorem C13_rate_125_refuted : exists mx ops u v,
   never_refused 2 ops (run_decs BW_ALPHA mx bucket0 ops) = true /\
   (5 # 4) * mx * (v - u) + inject_Z (4 * max_amt ops * 2) <
     inject_Z (window_bytes u v ops (run_decs BW_ALPHA mx bucket0 ops)).
-Proof.
-  exists f10_mx, (f10_history 100), 0, 100.
-  destruct f10_witness_100 as (H1 & H2 & H3 & _ & H5). rewrite H3.
-  repeat split; try assumption; discriminate.
-Qed.
+Proof. exact rate_125_witness. Qed.
 Print Assumptions C13_rate_125_refuted.
 
 (** (c) REFUTED without its side condition (finding F11).  After the
@@ -208,10 +271,14 @@ Example C13_nonvacuous :
   run_decs BW_ALPHA 1000 bucket0 ops =
     [Some Granted; Some (Refused (3 # 10)); Some (Refused (4 # 5)); None;
      Some Granted; Some Granted] /\
+  Forall (op_within [1; 2; 3]%Z 500) ops /\
+  released_bytes BW_ALPHA 1000 (1 # 2) 1 bucket0 ops = 500%Z /\
   reachable 1000 (run_state BW_ALPHA 1000 bucket0 ops) /\
   under_limit BW_ALPHA 1000 bucket0 [Consume 200 1 0; Consume 500 2 (1 # 2); Consume 250 1 (3 # 4)].
 Proof.
-  split; [vm_compute; reflexivity|]. split; [vm_compute; reflexivity|]. split.
+  split. { vm_compute; reflexivity. } split. { vm_compute; reflexivity. }
+  split. { repeat (apply Forall_cons; [split; [cbn [op_tok In]; auto 6|try lia; exact I]|]); apply Forall_nil. }
+  split. { vm_compute; reflexivity. } split.
   - eexists; split; [|reflexivity]. repeat constructor; discriminate.
   - apply under_limit_b_sound. vm_compute. reflexivity.
 Qed.
